@@ -8,17 +8,22 @@
 long adapter_ctx_created, adapter_ctx_destroyed, adapter_ctx_bad, adapter_ctx_live, adapter_nullctx_use;
 
 /* ---- libidn ---- */
+/* GNU libidn reports failures with POSITIVE codes (Idna_rc: 1..9, 201, 202), libidn2 with negative ones.  The stand-in keeps a
+ * one-to-one image of the converter's code in the positive range (5000 - code), so that the libidn source set is exercised with
+ * the sign its real library has; idna_strerror maps back. */
 int
 idna_to_ascii_lz (const char *input, char **output, int flags)
 {
+    int r;
     (void) flags;
-    return idn2_to_ascii_8z (input, output, IDN2_NONTRANSITIONAL);
+    r = idn2_to_ascii_8z (input, output, IDN2_NONTRANSITIONAL);
+    return r == 0 ? 0 : 5000 - r;
 }
 
 const char *
 idna_strerror (int rc)
 {
-    return idn2_strerror (rc);
+    return idn2_strerror (rc > 0 ? 5000 - rc : rc);
 }
 
 /* ---- idnkit ---- */
